@@ -126,6 +126,12 @@ def cat_framework(model, spec):
             m = X.clone(model)
             X.set_cell(m, "Parameters", r, "Function", str(X.get_cell(model, "Parameters", r, "Function")) + "+nosuchquantity")
             add("undefined-name-in-function", "reject", f"Parameters/{r}", m)
+            # flow-rate references (source:destination, source:, :destination, parameter:flow) with an undefined end
+            c0 = X.rows(model, "Compartments")[0]
+            for ref in (f"{c0}:nosuchcomp", f"nosuchcomp:{c0}", ":nosuchcomp", "nosuchcomp:", "nosuchcomp:nosuchcomp2", "nosuchpar:flow"):
+                m = X.clone(model)
+                X.set_cell(m, "Parameters", r, "Function", str(X.get_cell(model, "Parameters", r, "Function")) + "+" + ref)
+                add("undefined-end-of-flow-reference", "reject", f"Parameters/{r} + {ref}", m)
             m = X.clone(model)
             X.set_cell(m, "Parameters", r, "Function", f"foo({X.get_cell(model, 'Parameters', r, 'Function')})")
             add("unsupported-function-call", "reject", f"Parameters/{r}", m)
@@ -313,6 +319,7 @@ def cases(tier):
                 yield dict(kind="framework_mutations", name=name)
     yield dict(kind="databook_mutations")
     yield dict(kind="databook_mutations", blank_pop_types=True)
+    yield dict(kind="databook_names")
     yield dict(kind="progbook_mutations")
 
 
@@ -562,6 +569,33 @@ def run_databook_mutations(case):
     return dict(states=0, transitions=0, nontrivial=True, violations=list(byk.values()), counters=counters)
 
 
+def run_databook_names(case):
+    """a model with a transfer AND an interaction: their code names share one namespace, whatever the order of the two sheets in the file"""
+    from mc.props import c06
+
+    w = World(c06.model("agg", 0.25, "three", 0.5, 1.5, "none", False, None))
+    blob = X.values_only(w.D.to_spreadsheet().tofile().getvalue())
+    vs = []
+    counters = {}
+    for order in ("as_written", "transfers_first"):
+        for dup in (False, True):
+            wb = X.load(blob)
+            if order == "transfers_first":
+                wb.move_sheet("Transfers", offset=wb.sheetnames.index("Interactions") - wb.sheetnames.index("Transfers"))
+            if dup:
+                wb["Transfers"]["A2"] = wb["Interactions"]["A2"].value
+            err = _try_databook(X.dump(wb), w.F)
+            rule = ("transfer-named-like-an-interaction" if dup else "valid") + ":" + order
+            counters["names_" + rule] = 1
+            if dup and err is None:
+                vs.append(V(f"invalid-databook-accepted:{rule}", f"a databook whose transfer carries the code name of an interaction (sheet order {order}) was silently accepted and run", None))
+            elif dup and not isinstance(err, DEDICATED):
+                vs.append(V(f"internal-error:{rule}:{type(err).__name__}@{raise_site(err)}", f"duplicate transfer / interaction name (sheet order {order}) raised {type(err).__name__}: {str(err)[:140]}", None))
+            elif not dup and err is not None:
+                vs.append(V(f"valid-databook-rejected:{rule}:{type(err).__name__}@{raise_site(err)}", f"valid databook (sheet order {order}) failed: {type(err).__name__}: {str(err)[:160]}", None))
+    return dict(states=0, transitions=0, nontrivial=True, violations=vs, counters=counters)
+
+
 def _try_progbook(blob, w):
     try:
         ps = at.ProgramSet.from_spreadsheet(X.spreadsheet(blob), framework=w.F, data=w.D)
@@ -617,4 +651,4 @@ def run_progbook_mutations(case):
 
 
 def run_case(case):
-    return dict(valid_generated=run_valid_generated, valid_library=run_valid_library, framework_mutations=run_framework_mutations, databook_mutations=run_databook_mutations, progbook_mutations=run_progbook_mutations)[case["kind"]](case)
+    return dict(valid_generated=run_valid_generated, valid_library=run_valid_library, framework_mutations=run_framework_mutations, databook_mutations=run_databook_mutations, progbook_mutations=run_progbook_mutations, databook_names=run_databook_names)[case["kind"]](case)
